@@ -1,6 +1,7 @@
 package sched
 
 import (
+	"errors"
 	"fmt"
 	"net"
 	"sync"
@@ -23,7 +24,11 @@ type BCfg struct {
 	SlowDial time.Duration
 	// SlowAlloc: the generator's AllocatePacketConn (the relay socket of an Allocate) takes this long.
 	SlowAlloc time.Duration
+	// FailAlloc: AllocatePacketConn fails (after SlowAlloc): the server answers 508.
+	FailAlloc bool
 }
+
+var errNoPorts = errors.New("bgen: no relay port available")
 
 // BW is the closed system of an Engine-B scenario.
 type BW struct {
@@ -48,6 +53,9 @@ func (g bgen) AllocatePacketConn(c turn.AllocateListenerConfig) (net.PacketConn,
 	g.w.mu.Unlock()
 	if g.w.cfg.SlowAlloc > 0 {
 		vsched.IdleSleep(g.w.cfg.SlowAlloc)
+	}
+	if g.w.cfg.FailAlloc {
+		return nil, nil, errNoPorts
 	}
 	s, err := g.w.Net.ListenUDP(c.Network, &net.UDPAddr{IP: net.IPv4(10, 9, 0, 1).To4(), Port: c.RequestedPort})
 	if err != nil {
